@@ -13,6 +13,7 @@ import (
 	"context"
 	"fmt"
 	"strings"
+	"sync"
 	"time"
 
 	"verifhx/puppet"
@@ -67,11 +68,16 @@ func residueBatches(rep int, seed int64, sum *sumT) int {
 	defer sh.close()
 	r := rng(seed, fmt.Sprint("residue", rep))
 	sh.cl.D.KeepLog = false
-	mode := "reply"
+	var cfgMu sync.Mutex
+	modeV, needV := "reply", 2
+	setMode := func(m string, n int) { cfgMu.Lock(); modeV, needV = m, n; cfgMu.Unlock() }
 	sh.cl.D.Default = func(server int, method, val string) *puppet.Script {
 		s := puppet.NewScript()
 		s.Action = puppet.Reply
 		s.Release = "early"
+		cfgMu.Lock()
+		mode := modeV
+		cfgMu.Unlock()
 		switch {
 		case mode == "fail" && server == 0:
 			s.Action, s.Code, s.Msg = puppet.Fail, 13, "boom"
@@ -85,8 +91,10 @@ func residueBatches(rep int, seed int64, sum *sumT) int {
 		}
 		return s
 	}
-	need := 2
 	sh.qs.F = func(method, req string, replies map[uint32]int64) (int64, int, bool, bool) {
+		cfgMu.Lock()
+		need := needV
+		cfgMu.Unlock()
 		return 0, len(replies), len(replies) >= need, true
 	}
 	time.Sleep(30 * time.Millisecond)
@@ -135,14 +143,14 @@ func residueBatches(rep int, seed int64, sum *sumT) int {
 	k := 10 + r.Intn(21)
 	req := func(i int) *dev.Request { return &dev.Request{Value: fmt.Sprintf("r%d-%d|x", rep, i)} }
 	// 1 quorum before all replies (stragglers answer later)
-	mode, need = "slow", 2
+	setMode("slow", 2)
 	for i := 0; i < k; i++ {
 		sh.all.QuorumCall(bg, req(i))
 		calls++
 	}
 	check("quorum-before-all-replies", false)
 	// 2 exhaustion (quorum unreachable)
-	mode, need = "reply", 9
+	setMode("reply", 9)
 	for i := 0; i < k; i++ {
 		sh.all.QuorumCall(bg, req(i))
 		f := sh.all.QuorumCallAsync(bg, req(i))
@@ -151,7 +159,7 @@ func residueBatches(rep int, seed int64, sum *sumT) int {
 	}
 	check("exhaustion", false)
 	// 3 handler errors
-	mode, need = "fail", 2
+	setMode("fail", 2)
 	for i := 0; i < k; i++ {
 		sh.all.QuorumCall(bg, req(i))
 		sh.node(1).GRPCCall(bg, req(i))
@@ -159,7 +167,7 @@ func residueBatches(rep int, seed int64, sum *sumT) int {
 	}
 	check("handler-errors", false)
 	// 4 deadline while waiting for replies
-	mode, need = "slow", 3
+	setMode("slow", 3)
 	for i := 0; i < k; i++ {
 		ctx, cancel := context.WithTimeout(bg, 2*time.Millisecond)
 		sh.all.QuorumCall(ctx, req(i))
@@ -172,7 +180,7 @@ func residueBatches(rep int, seed int64, sum *sumT) int {
 	}
 	check("deadline-while-waiting", false)
 	// 5 context already ended before the request is written
-	mode, need = "reply", 2
+	setMode("reply", 2)
 	for i := 0; i < k; i++ {
 		ctx, cancel := context.WithCancel(bg)
 		cancel()
@@ -188,7 +196,7 @@ func residueBatches(rep int, seed int64, sum *sumT) int {
 	}
 	check("context-ended-before-send", false)
 	// 6 correctable completion and stream completion (one message per node)
-	mode, need = "reply", 2
+	setMode("reply", 2)
 	for i := 0; i < k; i++ {
 		c := sh.all.Correctable(bg, req(i))
 		<-c.Done()
@@ -214,7 +222,7 @@ func residueBatches(rep int, seed int64, sum *sumT) int {
 	}
 	check("send-fails", true)
 	// 9 after the streams were re-created: ordinary calls again
-	mode, need = "reply", 3
+	setMode("reply", 3)
 	for i := 0; i < k; i++ {
 		if _, err := sh.all.QuorumCall(bg, req(i)); err != nil && i > 2 {
 			sum.mismatch(Mismatch{Property: "C10", Case: "residue batch=after-send-failures", Expected: "nodes are used again after their stream was re-created", Observed: strings.ReplaceAll(err.Error(), "\n", "/")})
